@@ -20,7 +20,7 @@ LineOK ==
        /\ Ev.check.schemas = [n \in 1..Len(t) |-> FinalSchema(t, f, n)]
        /\ Ev.transform.log = tl[1] /\ Ev.transform.failed = tl[2]
        /\ Ev.transform.result = (IF tl[2] THEN "" ELSE RenderT(t, 1))
-       /\ Ev.eval.log = el[1] /\ Ev.eval.failed = el[2]
+       /\ (Evaluable(t) => Ev.eval.log = el[1] /\ Ev.eval.failed = el[2])
 
 TraceInit == l = 1 /\ tree = <<>> /\ list = FALSE /\ stopK = 0 /\ todo = <<>> /\ visited = <<>> /\ result = "done"
 TraceNext == l <= Len(Trace) /\ l' = l + 1 /\ LineOK /\ UNCHANGED vars
